@@ -223,8 +223,13 @@ func runC10(c *Checker) {
 
 	// ---- blackout invariant maintenance (induction step per method)
 	spec := fiSpec{S: "open", I: "blackoutIdx", B: "inBlackout"}
+	useProof := map[*ssa.Function]*fiExec{} // path-sensitive proofs of the uses of the open list
+	if _, _, _, st := checkFieldInvariant(c.P, opn, spec, true); st == "" {
+		useProof[opn] = lastFiExec
+	}
 	for _, fn := range []*ssa.Function{proc, cls} {
-		paths, unch, fails, structural := checkFieldInvariant(c.P, fn, spec)
+		paths, unch, fails, structural := checkFieldInvariant(c.P, fn, spec, true)
+		useProof[fn] = lastFiExec
 		con := "assuming inBlackout ⇒ 0 ≤ blackoutIdx < len(open) at entry, it holds again at every return"
 		switch {
 		case structural != "":
@@ -290,6 +295,90 @@ func runC10(c *Checker) {
 	// ---- type dispatch
 	c.checkStateDispatch(proc)
 
+	// ---- the received ring: received is made once with a constant length K
+	// and never reassigned; receivedHead stays in [0, K-1] (zero value at
+	// creation; every store keeps the range, assuming it held before)
+	ringOK := map[ssa.Instruction]bool{}
+	{
+		bad := ""
+		var K int64 = -1
+		nRecv, nHead := 0, 0
+		for _, fn := range c.P.LibFuncs(false) {
+			for _, b := range fn.Blocks {
+				for _, ins := range b.Instrs {
+					st, ok := ins.(*ssa.Store)
+					if !ok {
+						continue
+					}
+					fa, ok := st.Addr.(*ssa.FieldAddr)
+					if !ok || !strings.HasSuffix(fa.X.Type().String(), "scte35.state") {
+						continue
+					}
+					switch fieldName(fa.X.Type(), fa.Field) {
+					case "received":
+						nRecv++
+						mk, isMake := st.Val.(*ssa.MakeSlice)
+						if !isMake {
+							bad = "received is assigned something else than a make at " + c.P.Pos(st.Pos())
+							break
+						}
+						k, isConst := mk.Len.(*ssa.Const)
+						kv, ok := int64(0), false
+						if isConst {
+							kv, ok = constInt64(k)
+						}
+						if !ok || kv <= 0 || (K >= 0 && K != kv) {
+							bad = "received is not made with one constant length"
+						}
+						K = kv
+					}
+				}
+			}
+		}
+		if K > 0 && bad == "" {
+			for _, fn := range c.P.LibFuncs(false) {
+				for _, b := range fn.Blocks {
+					for _, ins := range b.Instrs {
+						st, ok := ins.(*ssa.Store)
+						if !ok {
+							continue
+						}
+						fa, ok := st.Addr.(*ssa.FieldAddr)
+						if !ok || !strings.HasSuffix(fa.X.Type().String(), "scte35.state") || fieldName(fa.X.Type(), fa.Field) != "receivedHead" {
+							continue
+						}
+						nHead++
+						nc := &narrowCheck{P: c.P, memo: map[ssa.Value]*bigIval{}, assume: map[string]bigIval{}, assumeVal: func(v ssa.Value) (bigIval, bool) {
+							if isFieldLoad(v, "receivedHead") {
+								return bigIval{bi(0), bi(K - 1)}, true
+							}
+							return bigIval{}, false
+						}}
+						r := nc.rng(st.Val)
+						if len(nc.issues) > 0 || !r.within(bigIval{bi(0), bi(K - 1)}) {
+							bad = fmt.Sprintf("receivedHead = %s at %s may leave [0,%d]", sx(st.Val), c.P.Pos(st.Pos()), K-1)
+						}
+					}
+				}
+			}
+		}
+		if nRecv == 0 || nHead == 0 {
+			bad = "no store to received / receivedHead found"
+		}
+		c.check("C10.ring", "scte35:(*state)", "received is made once with a constant length K and receivedHead stays in [0, K-1]", bad == "", bad)
+		if bad == "" {
+			for _, fn := range []*ssa.Function{proc, cls, opn} {
+				for _, b := range fn.Blocks {
+					for _, ins := range b.Instrs {
+						if ia, ok := ins.(*ssa.IndexAddr); ok && isFieldLoad(ia.X, "received") && isFieldLoad(ia.Index, "receivedHead") {
+							ringOK[ia] = true
+						}
+					}
+				}
+			}
+		}
+	}
+
 	// ---- bounds of the three methods (Open under the struct invariant)
 	B := newBounds(c.P)
 	for _, fn := range []*ssa.Function{opn, proc, cls} {
@@ -336,6 +425,18 @@ func runC10(c *Checker) {
 				if ok, _ := B.proveReqAt(bf, q.e, s.ins.Block(), s.ins, 0); !ok {
 					okAll = false
 					failed = append(failed, q.what+": need "+bf.affString(q.e)+" ≥ 0")
+				}
+			}
+			if !okAll {
+				// sites over the open list: path-sensitive proof from the struct
+				// invariant and the branch conditions of each path (fieldinv.go)
+				if ringOK[s.ins] {
+					okAll = true
+				}
+				if up := useProof[fn]; !okAll && up != nil && up.useSeen[s.ins] && !up.over {
+					if _, bad := up.useBad[s.ins]; !bad {
+						okAll = true
+					}
 				}
 			}
 			if okAll {
